@@ -109,6 +109,22 @@ func (c20) Gen(rng *simrt.Rand, seed uint64, tier string) *Case {
 		}
 	}
 	c.Clients = [][]Op{ops}
+	if nInst == 2 && rng.Bool(0.5) {
+		// a second caller hands the very same map objects to the instances at the same time
+		// (one message fanned out): nobody may see them changed, not even while a call is running
+		var ops2 []Op
+		for i := 0; i < n; i++ {
+			if rng.Bool(0.7) {
+				k := "emitk"
+				if !kind.Window && rng.Bool(0.6) {
+					k = "emitsynck"
+				}
+				ops2 = append(ops2, Op{K: k, I: rng.Intn(nInst), D: int64(i), Tag: fmt.Sprintf("r%03d", i)})
+			}
+		}
+		c.Clients = append(c.Clients, ops2)
+		c.X["fanout"] = true
+	}
 	c.Policy = genPolicy(rng, []time.Duration{time.Microsecond, time.Millisecond, 500 * time.Millisecond}, false)
 	c.Settle = int64(3 * time.Second)
 	c.MaxSteps = 300000
@@ -148,9 +164,20 @@ func genC20Registry(rng *simrt.Rand) *Case {
 	n := 6 + rng.Intn(10)
 	fn := []string{"verif_twice", "verif_fn2"}[rng.Intn(2)]
 	var opsA, opsB []Op
+	cycles := rng.Bool(0.6)
 	for i := 0; i < n; i++ {
 		opsA = append(opsA, Op{K: "emitsync", I: 0, Row: Row{"id": fmt.Sprintf("r%03d", i), "a": rng.Intn(6), "b": rng.Intn(6), "s": "ab"}, Tag: fmt.Sprintf("r%03d", i)})
 		opsB = append(opsB, Op{K: "emitsync", I: 1, Row: Row{"id": fmt.Sprintf("r%03d", i), "a": rng.Intn(6)}, Tag: fmt.Sprintf("r%03d", i)})
+		if cycles {
+			// re-registration cycles between B's rows: the registry's published snapshot is
+			// invalidated twice each time while A keeps evaluating
+			opsB = append(opsB, Op{K: "unregfn", T: fn}, Op{K: "regfn", T: fn})
+			for j := 0; j < 2; j++ { // A keeps evaluating: three rows for each of B's
+				id := fmt.Sprintf("x%03d_%d", i, j)
+				opsA = append(opsA, Op{K: "emitsync", I: 0, Row: Row{"id": id, "a": rng.Intn(6), "b": rng.Intn(6), "s": "ab"}, Tag: id})
+			}
+			continue
+		}
 		if i == n/3 {
 			opsB = append(opsB, Op{K: "unregfn", T: fn})
 		}
@@ -159,8 +186,8 @@ func genC20Registry(rng *simrt.Rand) *Case {
 		}
 	}
 	c.Insts = []InstSpec{
-		{SQL: "SELECT id, a + b AS ab, upper(s) AS us, abs(a - b) AS d FROM stream WHERE a >= 0", Sinks: []SinkSpec{{Mode: "sync"}}},
-		{SQL: fmt.Sprintf("SELECT id, %s(a) AS t FROM stream", fn), Sinks: []SinkSpec{{Mode: "sync"}}, Funcs: []string{fn}},
+		{SQL: []string{"SELECT id, a + b AS ab, upper(s) AS us, abs(a - b) AS d FROM stream WHERE a >= 0", "SELECT id, expr('a + b') AS ab, upper(s) AS us FROM stream WHERE a >= 0"}[rng.Intn(2)], Sinks: []SinkSpec{{Mode: "sync"}}},
+		{SQL: fmt.Sprintf("SELECT id, %s(a) AS t, %s(a) + 1 AS t1 FROM stream WHERE %s(a) >= 0", fn, fn, fn), Sinks: []SinkSpec{{Mode: "sync"}}, Funcs: []string{fn}},
 	}
 	c.Clients = [][]Op{opsA, opsB}
 	c.Policy = genPolicy(rng, []time.Duration{time.Microsecond}, false)
@@ -300,6 +327,9 @@ func (c20) Run(e *Env) {
 	}
 	if len(e.Insts) > 1 {
 		e.Probe("same_object_to_two_instances")
+	}
+	if e.C.xBool("fanout") {
+		e.Probe("same_object_from_two_callers_at_once")
 	}
 	e.R.Summary = map[string]any{"kind": kind, "rows": len(objs), "deliveries": nDel}
 }
